@@ -28,6 +28,7 @@ import traceback
 
 sys.path.insert(0, os.path.dirname(os.path.abspath(__file__)))
 from _util import exc_class, limbs  # noqa: E402
+from _util import cov_flush as _cov_flush  # noqa: E402
 
 from Crypto.PublicKey import DSA, ECC, RSA, ElGamal  # noqa: E402
 
@@ -231,6 +232,7 @@ def isolated(func, item, deep, call_seconds=CALL_SECONDS, total_seconds=600):
         except BaseException:
             traceback.print_exc()
         finally:
+            _cov_flush()
             os._exit(code)
     os.close(w)
     buf, deadline, outcome = b"", time.time() + call_seconds, None
